@@ -17,6 +17,10 @@ Tables written (Properties_C12.v proves that they are exactly what GlobalDefs.v 
                       IMPL_CLASSES) for every member variable of the private implementation classes of the services:
                       the per-instance state that survives from one call to the next
 
+  flatten_result_exprs : every expression assigned to `flatModel` in Importer::flattenModel (its return value)
+  flatten_calls        : (receiver, method) of every `receiver->method(` call in Importer::flattenModel
+  flatten_model_passed : the functions Importer::flattenModel passes its parameter `model` to
+
 Fails loudly when the shape of the source is not the expected one.
 """
 import os
@@ -238,6 +242,16 @@ def run(repo, gendir):
     first_test = body.find("if (")
     analyser_starts_fresh = bool(m) and m.start() < first_test
 
+    fbody = bodies.get(("importer.cpp", "Importer::flattenModel"))
+    if fbody is None or "flatModel" not in fbody:
+        raise RuntimeError("Importer::flattenModel no longer has a local `flatModel`")
+    flatten_result_exprs = [re.sub(r"\s+", " ", m.group(1).strip()) for m in re.finditer(r"\bflatModel\s*=\s*([^;]+);", fbody)]
+    flatten_calls = sorted(set((m.group(1), m.group(2)) for m in re.finditer(r"\b([A-Za-z_]\w*)\s*->\s*([A-Za-z_]\w*)\s*\(", fbody)
+                               if m.group(1) not in ("issue", "mPimpl")))
+    flatten_model_passed = sorted(set(m.group(1) for m in re.finditer(r"\b([A-Za-z_]\w*)\s*\((?:[^()]*,\s*)?model\s*[,)]", fbody)))
+    if not re.search(r"\breturn\s+flatModel\s*;", fbody):
+        raise RuntimeError("Importer::flattenModel no longer returns `flatModel`")
+
     instance_members = []
     for cls, f, heads in IMPL_CLASSES:
         text = strip_comments(open(os.path.join(src, f), encoding="utf-8", errors="replace").read())
@@ -269,6 +283,10 @@ def run(repo, gendir):
            lst(resets, lambda x: "(%s, %s)" % (coq_str(x[0]), "true" if x[1] else "false")), "",
            "Definition instance_members : list (string * string * bool) :=\n  %s." %
            lst(instance_members, lambda x: "(%s, %s, %s)" % (coq_str(x[0]), coq_str(x[1]), "true" if x[2] else "false")), "",
+           "Definition flatten_result_exprs : list string :=\n  %s." % lst(flatten_result_exprs, coq_str), "",
+           "Definition flatten_calls : list (string * string) :=\n  %s." %
+           lst(flatten_calls, lambda x: "(%s, %s)" % (coq_str(x[0]), coq_str(x[1]))), "",
+           "Definition flatten_model_passed : list string :=\n  %s." % lst(flatten_model_passed, coq_str), "",
            "Definition flatten_writes_library : bool := %s." % ("true" if flatten_writes_library else "false"),
            "Definition analyser_starts_fresh : bool := %s." % ("true" if analyser_starts_fresh else "false"), ""]
     text = "\n".join(out)
